@@ -2,6 +2,7 @@ import Apko.Model.Conflict
 import Apko.Generated.Conflict
 import Apko.Proofs.Lemmas.Conflict
 import Apko.Proofs.Lemmas.ConflictSort
+import Apko.Proofs.Lemmas.ConflictInv
 /-!
 # C07 — file conflicts follow the replaces/origin rules; the installed db tells the truth
 
@@ -238,6 +239,97 @@ theorem idb_unique (inst : List (Text × Nat)) (all : List (List Entry)) (i j : 
     simp only [ha, Option.map_some, Option.some.injEq] at hr
     subst hr
     exact prune_owner_only inst i j files e he ho
+
+/-! ## owner_invariant, no_silent_overwrite, idb_truth (partial: runs that raise no ghost flag) -/
+
+/-- Full statement (false on the unchanged tree: F07b, F07c, F07d, F07g are runs on which it fails;
+witnesses corpus/conflict/F07b.json … replayed on the real code by every run):
+after `installAll = ok`, `installedFiles` maps a name to `j` only if the tree holds `j`'s regular
+file at that path. -/
+def owner_invariant : Prop :=
+  ∀ (c : Cfg) (base : List Entry) (pkgs : List Pkg) (st : St) (all : List (List Entry)),
+    c.spec = false → (∀ p ∈ pkgs, ∀ e ∈ p.entries, WF e) → installAll c base pkgs = .ok (st, all) → OwnerInv st
+
+/-- **owner_invariant_partial**: for every backend, every base tree and every ordered package list
+with clean header names, a successful Impl run that raised no ghost flag ends in a state where every
+name `installedFiles` knows is a regular file in the tree whose content is the recorded owner's. -/
+theorem owner_invariant_partial (c : Cfg) (hc : c.spec = false) (base : List Entry) (pkgs : List Pkg)
+    (st : St) (all : List (List Entry)) (hwf : ∀ p ∈ pkgs, ∀ e ∈ p.entries, WF e)
+    (h : installAll c base pkgs = .ok (st, all)) (hfl : st.flags = []) : OwnerInv st := by
+  unfold installAll at h
+  obtain ⟨x, hx, hI⟩ := installFrom_inv c hc pkgs pkgs 0 _ _ st all h hwf
+  have hx0 : x = [] := by simpa [hfl] using hx.symm
+  refine hI hx0 ?_
+  intro name j hl
+  simp at hl
+
+/-- **no_silent_overwrite** (partial): one header of a flag-free Impl step changes what is stored at
+a path only at the header's own path, and only by creating the entry or through a logged decision:
+every other path keeps its node (`Shape`: unchanged / directories added / the own path written). -/
+theorem no_silent_overwrite_partial (c : Cfg) (hc : c.spec = false) (pkgs : List Pkg) (i : Nat) (e : Entry)
+    (st st' : St) (b : Bool) (h : stepEntry c pkgs i e st = .ok (st', b)) (hwf : WF e)
+    (hfl : st'.flags = st.flags) (q : PathK) (n : Node) (hq : lookupT st.tree q = some n)
+    (hne : q ≠ parts e.name) : lookupT st'.tree q = some n := by
+  obtain ⟨x, hx, hs⟩ := stepEntry_shape c hc pkgs i e st st' b h hwf
+  have hx0 : x = [] := append_eq_self _ _ (hfl ▸ hx).symm
+  cases hs hx0 with
+  | same ht _ => rw [ht]; exact hq
+  | grow _ ht => exact ht q n hq
+  | wrote _ _ t0 h0 ht => rw [ht, lookupT_setT_ne _ _ _ _ hne, h0 q hne]; exact hq
+  | linked _ _ m ht => rw [ht, lookupT_setT_ne _ _ _ _ hne]; exact hq
+
+/-- **idb_truth_partial**: after a successful flag-free run every name `installedFiles` knows is
+recorded by at most one package, its owner `j`, and the tree holds `j`'s regular file there. -/
+theorem idb_truth_partial (c : Cfg) (hc : c.spec = false) (base : List Entry) (pkgs : List Pkg)
+    (st : St) (all : List (List Entry)) (hwf : ∀ p ∈ pkgs, ∀ e ∈ p.entries, WF e)
+    (h : installAll c base pkgs = .ok (st, all)) (hfl : st.flags = [])
+    (i j : Nat) (rec : List Entry) (e : Entry)
+    (hr : (recordAll st.inst all)[i]? = some rec) (he : e ∈ rec) (ho : st.inst.lookup e.name = some j) :
+    i = j ∧ ∃ sum perm emp, lookupT st.tree (parts e.name) = some (.file sum perm (some j) emp) :=
+  ⟨idb_unique st.inst all i j rec e hr he ho,
+   (owner_invariant_partial c hc base pkgs st all hwf h hfl e.name j ho).2⟩
+
+example : WF { name := "usr/bin/x".toList, kind := .reg } := by
+  intro _; decide
+
+/-! ## negation witnesses (each is also replayed on the real code: corpus/conflict/F07b.json, F07c.json) -/
+
+/-- F07b: with two empty origins the lazy backend overwrites where the rule table demands a conflict,
+and the streaming backends refuse even identical content -/
+theorem decision_table_fails_empty_origin :
+    decideLazy { name := ['a'] } ['1'] { name := ['b'] } ['2'] = .overwrite ∧
+    decideSpec { name := ['a'] } ['1'] { name := ['b'] } ['2'] = .conflict ∧
+    decideStream (some { name := ['a'] }) ['1'] { name := ['b'] } ['1'] = .exists_ := by decide
+
+def witnessC : List Pkg :=
+  [{ name := ['a'], origin := ['o'], entries := [{ name := ['s', '/'], kind := .dir, mode := 0o755 }, { name := ['s', '/', 'f'], kind := .reg, sum := ['1'] }] },
+   { name := ['b'], origin := ['o'], entries := [{ name := ['s', '/'], kind := .dir, mode := 0o755 }, { name := ['s', '/', 'f'], kind := .link, sum := ['2'], target := ['g'] }] }]
+
+instance (e : Entry) : Decidable (WF e) := by unfold WF; infer_instance
+
+def staleOwner (r : Except (Outcome × List Flag) (St × List (List Entry))) : Bool :=
+  match r with
+  | .ok (st, _) => decide (st.inst.lookup ['s', '/', 'f'] = some 0) &&
+      (match lookupT st.tree [['s'], ['f']] with | some (.link ..) => true | _ => false)
+  | .error _ => false
+
+/-- F07c: the full `owner_invariant` is false: a regular file, then a symlink of the same origin at
+the same path (tarfs): the link is installed, `installedFiles` still names the first package -/
+theorem owner_invariant_fails : ¬ owner_invariant := by
+  intro h
+  have hb : staleOwner (installAll { backend := .lazy } [] witnessC) = true := by decide
+  have hw : ∀ p ∈ witnessC, ∀ e ∈ p.entries, WF e := by decide
+  cases hrun : installAll { backend := .lazy } [] witnessC with
+  | error x => rw [hrun] at hb; cases hb
+  | ok v =>
+    obtain ⟨st, all⟩ := v
+    rw [hrun] at hb
+    simp only [staleOwner, Bool.and_eq_true, decide_eq_true_eq] at hb
+    obtain ⟨s, p, em, hf⟩ := (h _ [] witnessC st all rfl hw hrun _ _ hb.1).2
+    have : parts ['s', '/', 'f'] = [['s'], ['f']] := by decide
+    rw [this] at hf
+    rw [hf] at hb
+    exact absurd hb.2 (by simp)
 
 /-! ## ties: the statement lists the model mirrors (regenerated from /repo on every run) -/
 
